@@ -63,6 +63,10 @@ class DocMixin:
                 if not docs.in_finite(c):
                     return None
             cells = [env.realize(c) for c in cells]
+        if self.p.get("alphabet"):
+            for c in cells:
+                if not docs.in_alphabet(c, self.p["alphabet"]):
+                    return None
         for i, k in enumerate(self.p.get("classes") or []):
             if not docs.in_class(cells[i], k):
                 return None
@@ -600,7 +604,7 @@ class C18Harness(DocMixin):
                 return SKIP
             self.R.reset(fault_at=k)
             argv = self.pre + ["--add-plugin", RECORDER] + (["--continue-on-error"] if sc == "fault-continue" else []) + ["fix" if sc == "fault-fix" else "scan", A, B]
-            o = app.run_main(argv, [(A, d), (B, self.GOOD)])
+            o = app.run_main(argv, [(A, d), (B, self.BAD)])
         else:
             raise ValueError(sc)
         return o
@@ -695,7 +699,7 @@ class C15Harness(DocMixin):
     """params: scenario plugin-fault|parser-fault|undecodable|crash, mode scan|fix,
     cont (bool), which (for undecodable: 'a'|'b'), skeleton/holes = document A."""
 
-    OTHER = "x  \n\n\n# y"
+    OTHER = "x  \n\n- p\n  - q\n\n\n# y"
 
     def __init__(self, params):
         self._init_doc(params)
@@ -917,3 +921,120 @@ class C11Kernel:
 
 HARNESSES["c11"] = C11Harness
 HARNESSES["c11kernel"] = C11Kernel
+
+
+class C11Kernel2:
+    """Two pragmas in one document (real compile_pragmas + log_scan_failure): a
+    disable-next-line at line p1 naming rule A and a disable-num-lines N at line p2 naming rule
+    B, p1/p2 in 1..4, N in 1..4, failure line l in 1..9 and the failing rule (A, B or a third) all
+    z3 Ints (small ranges, enumerated by branching because they become dictionary keys / pragma
+    text): suppressed iff some pragma names the rule and covers l."""
+
+    RULES = ["MD013", "MD047", "MD009"]
+
+    def __init__(self, params):
+        C11Kernel.__init__(self, dict(params, p=1, command="disable-next-line"))
+        self.p = params
+        self.kinds = params.get("kinds", ["disable-next-line", "disable-num-lines"])
+
+    def variables(self):
+        return [("p1", "int"), ("p2", "int"), ("l", "int"), ("r", "int"), ("d", "int")]
+
+    def body(self, v):
+        from pymarkdown.plugin_manager.plugin_scan_failure import PluginScanFailure
+
+        pm, pres = C11Kernel._pm
+        p1, p2, l, r, d = v["p1"], v["p2"], v["l"], v["r"], v["d"]
+        if not (1 <= p1 <= 4 and 1 <= p2 <= 4 and 1 <= l <= 9 and 0 <= r <= 2 and 49 <= d <= 52):
+            return SKIP
+        dd = 49
+        while dd < 52 and not (d == dd):
+            dd += 1
+        d = dd
+        if p1 == p2:
+            return SKIP
+        # concrete dictionary keys (hashing site, DESIGN 2.7): enumerate the small line range
+        a = 1
+        while a < 4 and not (p1 == a):
+            a += 1
+        b = 1
+        while b < 4 and not (p2 == b):
+            b += 1
+        lines = {}
+        if self.kinds[0] == "disable-next-line":
+            lines[a] = "<!-- pyml disable-next-line md013-->"
+        else:
+            lines[a] = sym_doc([ord(x) for x in "<!-- pyml disable-num-lines "] + [d] + [ord(x) for x in " md013-->"])
+        lines[b] = sym_doc([ord(x) for x in "<!-- pyml disable-num-lines "] + [d] + [ord(x) for x in " md047-->"])
+        pres.clear()
+        pm.starting_new_file("f")
+        pm.compile_pragmas("f", lines)
+        k = 0
+        while k < 2 and not (r == k):
+            k += 1
+        rule = self.RULES[k]
+        pm.log_scan_failure(PluginScanFailure("f", l, 1, rule, "n", "d", None))
+        return (len(pres.fails) == 0, len(pres.pragma), a, b, l, rule, d - 48)
+
+    def judge(self, obs, v):
+        if isinstance(obs, Raised):
+            return [{"kind": "exception", "detail": obs.describe()}]
+        suppressed, nerr, a, b, l, rule, n = obs
+        if self.kinds[0] == "disable-next-line":
+            cover_a = l == a + 1
+        else:
+            cover_a = a + 1 <= l <= a + n
+        cover_b = b + 1 <= l <= b + n
+        want = (rule == "MD013" and cover_a) or (rule == "MD047" and cover_b)
+        out = []
+        if bool(suppressed) != bool(want):
+            out.append({"kind": "suppression", "detail": {"suppressed": bool(suppressed), "expected": bool(want), "first_pragma_line": a, "second_pragma_line": b, "failure_line": l, "rule": rule, "count": n}})
+        if nerr != 0:
+            out.append({"kind": "pragma-error-count", "detail": {"errors": nerr, "expected": 0}})
+        return out
+
+    def digest(self, obs, rv):
+        if isinstance(obs, Raised):
+            return "raised"
+        return f"{obs[0]}:{obs[5]}"
+
+
+HARNESSES["c11kernel2"] = C11Kernel2
+
+
+class C14FixHarness(DocMixin):
+    """fix mode life-cycle shape for a non-fix recorder and a fix-capable recorder."""
+
+    def __init__(self, params):
+        self._init_doc(params)
+        self.fixrule = bool(params.get("fixrule"))
+        self.argv = ["--add-plugin", RECORDER_FIX if self.fixrule else RECORDER, "fix", F]
+        app.the_vfs()
+        self.R = recorder()
+
+    def body(self, v):
+        d = self.doc(v)
+        if d is None:
+            return SKIP
+        self.R.reset()
+        o = app.run_main(self.argv, [(F, d)])
+        log = list(self.R.LOG)
+        self.R.reset()
+        return (o, log)
+
+    def judge(self, obs, v):
+        if isinstance(obs, Raised):
+            return raised_verdict(obs)
+        o, log = obs
+        if scan_props.mentions(o.err, "Error"):
+            return []
+        return scan_props.c14_fix_shape(log)
+
+    def digest(self, obs, rv):
+        if isinstance(obs, Raised):
+            return "raised:" + obs.root_type + "@" + obs.site
+        with NoTracing():
+            return "".join(e[0][0] for e in obs[1])[:80]
+
+
+HARNESSES["c14fix"] = C14FixHarness
